@@ -43,6 +43,9 @@ def run(ck):
     rule_W(ck, lib)
     import c02
     c02.rule_H2(ck, lib, "C01-H")
+    # a header that does not resolve is reported as Undefined header (-113), whatever the compound parser stumbled over
+    with ck.under("C02-", "C01-C02"):
+        c02.rule_H(ck, lib)
     # ... and a unit is skipped (`no call`) only when the message is empty: an accepted empty unit in the middle of a
     # message makes run reset the path, so the header behind it selects a root-level handler
     import parsefields
